@@ -1,6 +1,6 @@
 """C17 — FMM-mode operators equal dense-mode ones given an exact far-field evaluator."""
 
-from .. import fmm, fx, rules
+from .. import fmm, fmmmode, fx, rules
 from . import c11
 
 LEVEL = "other"
@@ -18,7 +18,7 @@ LEVEL_TEXT = (
     "divergence transform follows the library's edge convention."
 )
 LEVEL_NOTE = "Not decided: agreement 'to rounding' and reproduction of the recorded reference vectors (need execution and an FMM library); the exafmm binding itself (C++ extension, absent here)."
-EXPLANATION = "rules FMM-NEAR-KERNELS, FMM-EVALUATORS, FMM-MAXWELL-TERMS, FMM-DISPATCH, FMM-BOUNDS, FMM-ROWS, EDGE-CONV, K-SPEC (dense reference)"
+EXPLANATION = "rules FMM-NEAR-KERNELS, FMM-EVALUATORS, FMM-MAXWELL-TERMS, FMM-DISPATCH, FMM-BOUNDS, FMM-ROWS, FMM-NEAR-LAYOUT, FMM-TRANSFORM-VALUES, FMM-MODE, EDGE-CONV, K-SPEC (dense reference)"
 ASSUMPTIONS = ["fmm_interface.evaluate returns [potential, gradient in the target] per target point", "Numba arithmetic semantics"]
 
 
@@ -30,5 +30,7 @@ def run(ctx):
     fmm.maxwell_terms(ctx)
     fmm.near_field_layout(ctx)
     fmm.transform_values(ctx)
+    fmmmode.fmm_mode(ctx)
+    fmmmode.curl_reuse(ctx)
     c11.edge_convention(ctx)
     rules.kernel_specs(ctx, ("laplace", "helmholtz", "modified_helmholtz"), include_singular=False)
